@@ -92,7 +92,7 @@ def layouts(ctx: Ctx):
     for pair in PAIRS:
         picked = disp.get(pair)
         if picked is None:
-            ctx.violated("dispatch", f"{LY.MCM}::_BaseCubeCounts.factory[{pair}]", "no class", "total dispatch")
+            ctx.undecided("dispatch", f"{LY.MCM}::_BaseCubeCounts.factory[{pair}]", "no class derived for this kind (the dispatch is not in a form the table understands)", "total dispatch")
             continue
         ci, _ = picked
         leaves = {"self._counts": source("_counts", L.src_roles(*pair))}
